@@ -61,11 +61,15 @@ func (l Lit) String() string {
 type LitTable struct {
 	lits  []Lit // index = id (0 unused)
 	index map[string]int32
+	norm  func(Lit) Lit // canonical form of a literal before it is interned (set by the analysis)
 }
 
 func newLitTable() *LitTable { return &LitTable{lits: []Lit{{}}, index: map[string]int32{}} }
 
 func (lt *LitTable) id(l Lit) int32 {
+	if lt.norm != nil {
+		l = lt.norm(l)
+	}
 	var sb strings.Builder
 	fmt.Fprintf(&sb, "%d|", l.Kind)
 	if l.A != nil {
